@@ -60,9 +60,7 @@ impl T {
         }
     }
     pub fn image(&self) -> Vec<u8> {
-        let mut v = Vec::new();
-        self.aml().to_aml_bytes(&mut v);
-        v
+        ser(self.aml())
     }
 }
 
